@@ -98,3 +98,17 @@ Example negaxis_repaired_ok :
   exists rs st', disc_ufunc castQ repaired NPadd st_d d23 1 MReduce [OpDisc d23 0] kwm1 [] = Ok ([OpDisc rs 1], st')
     /\ ds_axes rs = [mkAx 0 1 2 (1#2) 1] /\ a_data (rd st' 1) = [3; 12].
 Proof. eexists; eexists; split; [vm_compute; reflexivity | split; vm_compute; reflexivity]. Qed.
+
+(* finding discr-reduce-array-weighting: reduce on an array-weighted discretized
+   space: NumPy returns [3; 5; 7], ODL raises ValueError *)
+Definition d23w : dspace :=
+  mkDS [mkAx 0 1 2 (1#2) 1; mkAx 0 1 3 (1#3) 2] (mkTS [2%nat; 3%nat] DF64 (WArr 1 DF64) 2).
+Definition kwa0 : kwargs := mkKw (AxInt 0) false None [].
+Lemma discr_reduce_array_weighting_refuted :
+  (exists l st', raw_ufunc castQ NPadd st_d MReduce kwa0 [RopBuf 0] [None] = Ok (l, st')
+                 /\ a_data (rd st' 1) = [3; 5; 7])
+  /\ disc_ufunc castQ as_found NPadd st_d d23w 1 MReduce [OpDisc d23w 0] kwa0 [] = Err EValue
+  /\ disc_ufunc castQ repaired NPadd st_d d23w 1 MReduce [OpDisc d23w 0] kwa0 [] = Err EValue.
+Proof.
+  split; [eexists; eexists; split; vm_compute; reflexivity | split; vm_compute; reflexivity].
+Qed.
